@@ -1,7 +1,9 @@
 mod gen;
 mod hung;
 mod node;
+mod qual;
 mod sched;
+mod solve;
 mod tree;
 mod sel;
 
@@ -74,6 +76,23 @@ fn main() {
             &outdir,
             opt_arg(&args, "--replay"),
         ),
+        "solve" => solve::run(
+            solve::SPlan {
+                seed: arg(&args, "--seed", 1u64),
+                count: arg(&args, "--count", 50usize),
+                max_c: arg(&args, "--max-c", 5usize),
+                max_p: arg(&args, "--max-p", 8usize),
+                rooms_mode: arg(&args, "--rooms", 2usize),
+                scheds: arg(&args, "--scheds", 3usize),
+                max_k: arg(&args, "--max-k", 4usize),
+                brute_limit: arg(&args, "--brute-limit", 3_000_000u64),
+                c17: arg(&args, "--c17", 0usize) != 0,
+            },
+            shards,
+            &outdir,
+            opt_arg(&args, "--replay"),
+        ),
+        "qual" => qual::run(arg(&args, "--seed", 1u64), arg(&args, "--count", 200usize), shards, &outdir),
         other => {
             eprintln!("unknown subcommand {}", other);
             std::process::exit(2);
